@@ -385,6 +385,7 @@ func TestC05Handle(t *testing.T) {
 		c, dl := newConsensusForHandle(n)
 		m := proto.Clone(b.msg).(*pbv1.QBFTConsensusMsg)
 		kind := rapid.IntRange(0, 19).Draw(rt, "alteration")
+		baseInst, baseBuf := 0, 0 // what the component holds before the message under test arrives
 		level, field, how := "top", "", ""
 		parses := true
 		totalityOnly := false
@@ -582,8 +583,23 @@ func TestC05Handle(t *testing.T) {
 				m.Justification = nil
 				how = "gated"
 			} else {
-				dl.expired[duty] = true
 				how = "expired"
+				if rapid.Bool().Draw(rt, "expiresAfterFirstMessage") {
+					// the duty expires while the node already holds state for it: an earlier, valid message
+					// was taken in time; the deadline passes (nothing has collected the instance yet); then
+					// this message arrives. It is the same message from the same or (if drawn) another member.
+					first := proto.Clone(b.msg).(*pbv1.QBFTConsensusMsg)
+					if _, _, err := c.handle(ctx, "peer", first); err != nil {
+						rt.Fatalf("valid %s message rejected: %v", shape, err)
+					}
+					baseInst, baseBuf = bufState(c)
+					if rapid.Bool().Draw(rt, "otherSenderAfterExpiry") {
+						other := (sender + 1) % int64(n)
+						m = proto.Clone(buildBase(shape, n, duty, other).msg).(*pbv1.QBFTConsensusMsg)
+					}
+					how = "expired_after_an_accepted_message"
+				}
+				dl.expired[duty] = true
 			}
 			field = "duty"
 		case kind == 16: // nil parts
@@ -654,8 +670,8 @@ func TestC05Handle(t *testing.T) {
 		if herr == nil {
 			rt.Fatalf("ACCEPTED: altered %s message (%s.%s, %s) was accepted by handle: %v\n differs from the valid message in: %s", shape, level, field, how, m, diffParts(m, b.msg))
 		}
-		if inst != 0 || buf != 0 {
-			rt.Fatalf("STATE TOUCHED: rejected %s message (%s.%s, %s; err %v) left instances=%d buffered=%d", shape, level, field, how, herr, inst, buf)
+		if inst != baseInst || buf != baseBuf {
+			rt.Fatalf("STATE TOUCHED: rejected %s message (%s.%s, %s; err %v) left instances=%d buffered=%d (before it: %d / %d)", shape, level, field, how, herr, inst, buf, baseInst, baseBuf)
 		}
 		vstat.Case(fmt.Sprintf("%s/%s/%s/%s/n%d/s%d/%v/%x", shape, level, field, how, n, sender, duty, sha256.Sum256([]byte(m.String()))), true, "level:"+level, "field:"+field, "kind:"+how, "shape:"+shape)
 		if vstat.WantSample(field + ":" + how) {
